@@ -165,6 +165,8 @@ class SymE:
     def classname(self, obj):
         if isinstance(obj, Obj):
             return obj.cls.name
+        if type(obj).__name__ == 'ExcVal':         # an exception caught with `except ... as e` that carries no instance
+            return obj.cls.split('.')[-1]
         return type(obj).__name__
 
     def isinstance(self, obj, clsname):
